@@ -1047,6 +1047,43 @@ def gen_series(rng):
     return rain, head, s_thr, jd
 
 
+def small_series(limit):
+    """Every heavy-rain x rising-limb pattern of a stretch of 2..limit samples
+    (a complete enumeration of small shapes: begins / ends / all in rain or in
+    a rising limb, every way two or three runs can interleave)."""
+    for n in range(2, limit + 1):
+        for hbits in range(1 << n):
+            heavy = [(hbits >> i) & 1 for i in range(n)]
+            for rbits in range(1 << (n - 1)):
+                rising = [(rbits >> i) & 1 for i in range(n - 1)]
+                rain = [8.0 if h else 2.0 for h in heavy]
+                head = [-100.0]
+                for r in rising:
+                    head.append(head[-1] + (2.0 if r else 0.5))
+                yield rain, head, 4.0, 1.0
+
+
+def series_small_job(job):
+    stats = collections.Counter()
+    violations, distinct = [], []
+    for idx, (rain, head, s_thr, jd) in enumerate(small_series(job["limit"])):
+        if idx % job["of"] != job["part"]:
+            continue
+        schedules = [Schedule(pol, runner.derive_seed(job["seed"], idx, pol)) for pol in ("fifo", "lifo", "random")]
+        v, st, di = run_series_case(rain, head, s_thr, jd, schedules)
+        stats.update(st)
+        stats["small_patterns_enumerated"] += 1
+        distinct.extend(di)
+        violations.extend(v)
+    kept, seen = [], collections.Counter()
+    for x in violations:
+        key = (x["property"], x["class"])
+        seen[key] += 1
+        if seen[key] <= 2:
+            kept.append(x)
+    return {"stats": stats, "violations": kept, "distinct": distinct, "samples": []}
+
+
 def series_job(job):
     seed, count, n_sched = job["seed"], job["count"], job["n_sched"]
     stats = collections.Counter()
@@ -1219,7 +1256,8 @@ RULE = (
     "function level: random bipartite candidate graphs (1-6 storms x 1-6 rises; random, interval-overlap, "
     "tie-free and dense edge sets) fed to the real disambiguate_matching, each under several seeded proposer "
     "schedules (fifo, lifo, random, smallest, largest, starve-one); series level: the real match_storms on in-memory "
-    "rain / head series with independently drawn heavy-rain and rising-limb run patterns; data level: spowtd load + classify through "
+    "rain / head series with independently drawn heavy-rain and rising-limb run patterns, plus every heavy x rising "
+    "pattern of stretches of 2..6 samples (2..8 in the thorough tier); data level: spowtd load + classify through "
     "user_interface.main on synthetic records built from contention templates and on the two field datasets "
     "at seeded threshold pairs, several schedules each, pairing tables read back through a fresh connection. "
     "A case is non-trivial when the run re-queued at least one storm (rejection or displacement) or made more "
@@ -1236,8 +1274,8 @@ ASSUMPTIONS = [
 
 TIERS = {
     # (function jobs, instances per job, schedules) , (synthetic jobs, datasets per job, threshold pairs, schedules), (field threshold pairs, schedules)
-    "quick": {"fn": (48, 250, 6), "series": (48, 150, 4), "syn": (64, 6, 2, 4), "field": (6, 3)},
-    "thorough": {"fn": (640, 1000, 8), "series": (640, 600, 6), "syn": (640, 12, 3, 6), "field": (40, 8)},
+    "quick": {"fn": (48, 250, 6), "series": (48, 150, 4), "syn": (64, 6, 2, 4), "field": (6, 3), "small_limit": 6},
+    "thorough": {"fn": (640, 1000, 8), "series": (640, 600, 6), "syn": (640, 12, 3, 6), "field": (40, 8), "small_limit": 8},
 }
 
 
@@ -1297,6 +1335,11 @@ def check(prop, tier, only=None):
             for i in range(se_jobs):
                 jobs.append(("series", {"seed": runner.derive_seed(seed, prop, "series", i), "count": se_count,
                                         "n_sched": se_sched, "want_samples": i == 0}))
+        if only in (None, "series"):
+            parts = 16
+            for part in range(parts):
+                jobs.append(("small", {"seed": runner.derive_seed(seed, prop, "small"), "limit": cfg["small_limit"],
+                                       "part": part, "of": parts}))
         if only in (None, "data"):
             for i in range(syn_jobs):
                 jobs.append(("syn", {"seed": runner.derive_seed(seed, prop, "syn", i), "count": syn_count,
@@ -1317,7 +1360,7 @@ def check(prop, tier, only=None):
                                            "thresholds": fixed[i] if i < len(fixed) else None,
                                            "want_samples": i < 2}))
         # long jobs first
-        order = {"field": 0, "syn": 1, "series": 2, "fn": 3}
+        order = {"field": 0, "syn": 1, "small": 2, "series": 3, "fn": 4}
         jobs.sort(key=lambda j: order[j[0]])
         for result in runner.run_jobs(_dispatch, jobs):
             report.absorb(result)
@@ -1359,6 +1402,8 @@ def _dispatch(job):
         return data_job(payload)
     if kind == "series":
         return series_job(payload)
+    if kind == "small":
+        return series_small_job(payload)
     return field_job(payload)
 
 
